@@ -5,5 +5,8 @@ def run(ctx):
     filecheck.run(ctx, 'c11')
 
 
+REPLAY_KINDS = ('corr', 'truncated-cli', 'convert')
+
+
 def replay(ctx, data):
     return filecheck.replay(ctx, data)
